@@ -73,7 +73,7 @@ def run(ctx):
     subprocess.run(["python3", os.path.join(root, "tools", "gen_schema.py"), REPO, os.path.join(root, "spec", "CompilerSchema.tla")], check=True)
     q = ctx.quick
     os.environ["VERIF_REQUEST_SPLITS"] = "2" if q else "4"
-    ctx.tlc("MC_Syntax", "MC_Syntax_sim", replay="request", simulate={"num": 40 if q else 1500, "depth": 500, "procs": 6 if q else 12, "seed_offset": 90},
+    ctx.tlc("MC_Syntax", "MC_Syntax_sim", replay="request", simulate={"num": 96 if q else 1500, "depth": 500, "procs": 12, "seed_offset": 90},
             label="MC_Syntax_sim", timeout=7200)
     ctx.tlc("MC_DocComment", "MC_DocComment_tags1", replay="request", coverage=False)
     os.environ["VERIF_REQUEST_SAMPLE"] = "6" if q else "1"
